@@ -297,6 +297,18 @@ def m_iter(E, st, fid, t, args, dest_ty):
     return ret(st, ('opqit', E.tag_of(args[0]), freeze(ety)))
 
 
+@model('core::array::iter::<impl core::iter::traits::collect::IntoIterator for [T; N]>::into_iter',
+       'iterator over exactly the N elements of the array, front to back (by value)')
+def m_array_into_iter(E, st, fid, t, args, dest_ty):
+    v = args[0]
+    if v[0] != 'oarr':
+        return E.opaque_call(st, fid, t, args, dest_ty)
+    ety = None
+    if dest_ty and dest_ty.get('k') == 'adt' and dest_ty['args']:
+        ety = dest_ty['args'][0]
+    return ret(st, ('opqit', v[1], freeze(ety) if ety else None, 0, v[2]))
+
+
 @model('core::slice::<impl [T]>::len', 'number of elements of the slice')
 def m_len(E, st, fid, t, args, dest_ty):
     s = _slice_of(E, st, args[0])
@@ -465,6 +477,7 @@ def m_sliceit_size_hint(E, st, fid, t, args, dest_ty):
 @model(["<core::slice::iter::Iter<'a, T> as core::iter::traits::iterator::Iterator>::next",
         "<core::slice::iter::IterMut<'a, T> as core::iter::traits::iterator::Iterator>::next",
         '<&mut I as core::iter::traits::iterator::Iterator>::next',
+        '<core::array::iter::IntoIter<T, N> as core::iter::traits::iterator::Iterator>::next',
         '<core::iter::adapters::chain::Chain<A, B> as core::iter::traits::iterator::Iterator>::next',
         '<core::iter::adapters::enumerate::Enumerate<I> as core::iter::traits::iterator::Iterator>::next',
         '<core::iter::adapters::flatten::Flatten<I> as core::iter::traits::iterator::Iterator>::next',
@@ -493,7 +506,7 @@ def _range_aux(E, st, ptr, start, end):
     if isinstance(end, int) or not (start == 0 or (isinstance(start, Term) and z.entails_eq(start, 0))):
         return
     mids = [m for m, ms in st.maps.items() if not ms.dead and not ms.phantom and z.entails_eq(end, ms.len)]
-    if not mids:
+    if not mids and not any(not ms.dead and not ms.phantom and z.entails_le(end, ms.len) for ms in st.maps.values()):
         return
     rs, re_ = ('rs', ptr), ('re', ptr)
     if slots.aux_find(st, re_, rs) is None:
@@ -530,7 +543,11 @@ def ad_range_next(E, st, ptr, v, fid, item_ty=None):
         out.append(('ret', s1, some(a)))
     st.zone.add_le(b[1], a[1])
     if st.zone.sat:
-        out.append(('ret', st, NONE))
+        d = slots.aux_find(st, ('re', ptr), ('rs', ptr))
+        if d is not None and not isinstance(d, int):
+            st.zone.add_le(d, 0)        # the range is used up: end - start == 0
+        if st.zone.sat:
+            out.append(('ret', st, NONE))
     return out
 
 
@@ -855,6 +872,128 @@ def m_find(E, st, fid, t, args, dest_ty):
     return _finish(consume(E, st, fid, it_ptr, on_item, on_none, ('find', fid)), [ip, cell])
 
 
+@model(["<core::slice::iter::Iter<'a, T> as core::iter::traits::iterator::Iterator>::nth",
+        "<core::slice::iter::IterMut<'a, T> as core::iter::traits::iterator::Iterator>::nth"],
+       'jumps over n elements: Some(element n of the rest), cursor right behind it; None (and exhausted) when fewer remain')
+def m_sliceit_nth(E, st, fid, t, args, dest_ty):
+    ptr = args[0][2]
+    it = E.load(st, ptr)
+    n = args[1]
+    if it[0] != 'sliceit' or n[0] != 'int':
+        return E.opaque_call(st, fid, t, args, dest_ty)
+    _, mid, fr, bk, mut = it
+    out = []
+    a = st.fork()
+    z = a.zone
+    tt = fresh('n')          # the slot fr + n (a sum of two terms: only its bounds are known to the zone)
+    z.add_le(fr, tt)
+    z.add_le(n[1], tt) if not isinstance(n[1], int) else None
+    z.add_lt(tt, bk)
+    if isinstance(n[1], int):
+        z.add_eq(tt, fr, n[1])
+    elif z.entails_eq(fr, 0):
+        z.add_eq(tt, n[1])
+    if z.sat:
+        E.store(a, ptr, ('sliceit', mid, slots.plus(a, tt, 1), bk, mut))
+        a.log('adv', mid, tt, 'front')
+        if getattr(E, 'track_adv', False):
+            # n + 1 advances at once (exact when nothing was counted before)
+            g = a.ghost.get(('adv', mid))
+            if g is None and not isinstance(n[1], int):
+                a.ghost[('adv', mid)] = (slots.plus(a, n[1], 1), ())
+            elif g is None:
+                a.ghost[('adv', mid)] = (n[1] + 1, ())
+            else:
+                u = fresh('g')
+                z.add_le(g[0], u)
+                a.ghost[('adv', mid)] = (u, ())
+        out.append(('ret', a, some(('ref', mut, ('mu', mid, tt)))))
+    b = st
+    # fewer than n + 1 remain: the iterator is emptied
+    E.store(b, ptr, ('sliceit', mid, bk, bk, mut))
+    b.log('cursor-end', mid)
+    b.log('nth-short', mid)
+    out.append(('ret', b, NONE))
+    return out
+
+
+@model(["<core::slice::iter::Iter<'a, T> as core::iter::traits::double_ended::DoubleEndedIterator>::next_back",
+        "<core::slice::iter::IterMut<'a, T> as core::iter::traits::double_ended::DoubleEndedIterator>::next_back"],
+       'the last remaining element (the back end moves down by one), None when nothing remains')
+def m_sliceit_next_back(E, st, fid, t, args, dest_ty):
+    ptr = args[0][2]
+    it = E.load(st, ptr)
+    if it[0] != 'sliceit':
+        return E.opaque_call(st, fid, t, args, dest_ty)
+    _, mid, fr, bk, mut = it
+    out = []
+    a = st.fork()
+    a.zone.add_lt(fr, bk)
+    if a.zone.sat:
+        nb = fresh('p')
+        a.zone.add_eq(bk, nb, 1)
+        E.store(a, ptr, ('sliceit', mid, fr, nb, mut))
+        a.log('adv', mid, nb, 'back')
+        out.append(('ret', a, some(('ref', mut, ('mu', mid, nb)))))
+    st.zone.add_le(bk, fr)
+    if st.zone.sat:
+        st.log('cursor-end', mid)
+        out.append(('ret', st, NONE))
+    return out
+
+
+@model(IT + 'nth', 'n times next() (stopping at the first None), then next()')
+def m_nth(E, st, fid, t, args, dest_ty):
+    if t['callee']['resolved'] == 'unresolved':
+        return E.user_call(st, fid, t, args, dest_ty)
+    it_ptr, ip = _with_iter(E, st, fid, args[0])
+    n = args[1]
+    if n[0] != 'int':
+        return E.opaque_call(st, fid, t, args, dest_ty)
+    cnt = pin(st, fid, I(0))
+
+    def on_item(s, item):
+        c = E.load(s, cnt)[1]
+        out = []
+        a = s.fork()
+        if isinstance(c, int) and isinstance(n[1], int):
+            feasible_eq, feasible_lt = c == n[1], c < n[1]
+        else:
+            feasible_eq = feasible_lt = True
+        if feasible_eq:
+            a.zone.add_eq(c, n[1])
+            if a.zone.sat:
+                out.append(('done', 'ret', a, some(item)))
+        if feasible_lt:
+            s.zone.add_lt(c, n[1])
+            if s.zone.sat:
+                E.store(s, cnt, I(slots.plus(s, c, 1)))
+                out.append(('cont', s))
+        return out
+
+    def on_none(s):
+        return [('ret', s, NONE)]
+
+    return _finish(consume(E, st, fid, it_ptr, on_item, on_none, ('nth', fid)), [ip, cnt])
+
+
+@model(IT + 'last', 'drives the iterator to its end and returns the last item it gave')
+def m_last(E, st, fid, t, args, dest_ty):
+    if t['callee']['resolved'] == 'unresolved':
+        return E.user_call(st, fid, t, args, dest_ty)
+    it_ptr, ip = _with_iter(E, st, fid, args[0])
+    acc = pin(st, fid, NONE)
+
+    def on_item(s, item):
+        E.store(s, acc, some(item))
+        return [('cont', s)]
+
+    def on_none(s):
+        return [('ret', s, E.load(s, acc))]
+
+    return _finish(consume(E, st, fid, it_ptr, on_item, on_none, ('last', fid)), [ip, acc])
+
+
 @model(IT + 'find_map', 'pulls items front to back; returns the first Some(..) the closure answers, None when exhausted')
 def m_find_map(E, st, fid, t, args, dest_ty):
     it_ptr, ip = _with_iter(E, st, fid, args[0])
@@ -1046,6 +1185,8 @@ def _try_cases(E, st, r, fid):
         a = st.fork()
         ety = r[1]['args'][1] if len(r[1]['args']) > 1 else None
         err = E.mk_unknown(a, ety, r[2] + ('err',), E.gs_of(st, fid))
+        st.log('variant', r[2], 0)      # (the driver examines the result: Ok goes on, Err stops)
+        a.log('variant', r[2], 1)
         return [(st, True, None), (a, False, ('adt', RESULT, 1, (err,)))]
     a = st.fork()
     return [(st, True, None), (a, False, ('opq', E.tag_of(r) + ('break',)))]
